@@ -485,3 +485,95 @@ OSI = Unit('C17', 'taurex.data.spectrum.observed:ObservedSpectrum.__init__', _os
            frame_attrs=[('self', '_filename')], short='ObservedSpectrum.__init__',
            doc='an observation read from a text file: the table np.loadtxt returns for that file (default options) is handed to ArraySpectrum\'s '
                'constructor unchanged -- everything else (sorting, splitting, edges) is ArraySpectrum (own units); np.loadtxt abstract')
+
+
+# ------------------------------------------------------------------ taurex_hdf5_to_observation: the same table, through the loader module
+def _ho_params(c):
+    N = c.int('N')
+    if c.mode == 'conc':
+        return dict(filename='out.h5')
+    return dict(filename='out.h5', _file=dict(instrument_wngrid=c.array('wn', (N,)), instrument_spectrum=c.array('sp', (N,)), instrument_noise=c.array('no', (N,)),
+                                             instrument_wnwidth=c.array('ww', (N,))))
+
+
+def _h_ho_new(ex, st, args, kwargs, node):
+    st.trace.append(('ev', ('ArraySpectrum', args[0])))
+    return _AbsObj('ArraySpectrum', 'obs', {})
+
+
+def _ho_post(c, v0, v1, r):
+    if c.mode == 'conc':
+        import numpy as np
+        f = c.values['__file__']
+        wn = np.asarray(f['instrument_wngrid'], dtype=float)
+        want = np.vstack((10000 / wn, f['instrument_spectrum'], f['instrument_noise'], 10000 * np.asarray(f['instrument_wnwidth']) / wn ** 2)).T
+        got = c.values['__table__']
+        return {'an_ArraySpectrum_of_the_four_columns_row_by_row': r == 'ArraySpectrum' and np.asarray(got).shape == want.shape and bool(np.allclose(got, want, rtol=1e-12))}
+    f = v0._file
+    N = c.Len(f['instrument_wngrid'])
+    wn, ww = f['instrument_wngrid'], f['instrument_wnwidth']
+    calls = [e for e in (c.trace or []) if e[0] == 'ArraySpectrum']
+    if len(calls) != 1 or not isinstance(c.raw['ret'], _AbsObj) or c.raw['ret'].cls != 'ArraySpectrum':
+        return {'an_ArraySpectrum_of_the_four_columns_row_by_row': False}
+    from pyvc.core import View
+    t = View(c, {'t': calls[0][1]}, c.raw['state'].heap).t
+    return {'an_ArraySpectrum_of_the_four_columns_row_by_row': c.And(
+        c.Shape(t)[0] == N, c.Shape(t)[1] == 4,
+        c.Forall(0, N, lambda i: c.And(c.Eq(t[i, 0] * wn[i], 10000), c.Eq(t[i, 1], f['instrument_spectrum'][i]), c.Eq(t[i, 2], f['instrument_noise'][i]),
+                                        c.Eq(t[i, 3] * (wn[i] * wn[i]), 10000 * ww[i]))))}
+
+
+def _ho_native(c, p):
+    import os
+    import h5py
+    import numpy as np
+    import taurex.util.hdf5 as H
+    import taurex.data.spectrum as S
+    v = c.values
+    here = os.path.dirname(os.path.dirname(os.path.abspath(__file__)))
+    base = os.path.join(here, '.cache', 'c17')
+    os.makedirs(base, exist_ok=True)
+    path = os.path.join(base, 'obs2_%d.h5' % os.getpid())
+    f = dict(instrument_wngrid=np.array(v['wn'], dtype=float), instrument_spectrum=np.array(v['sp'], dtype=float), instrument_noise=np.array(v['no'], dtype=float),
+             instrument_wnwidth=np.array(v['ww'], dtype=float))
+    with h5py.File(path, 'w') as fh:
+        g = fh.create_group('Output').create_group('Spectra')
+        for k, a in f.items():
+            g.create_dataset(k, data=a)
+    seen = {}
+    real = S.ArraySpectrum
+
+    class _Rec:
+        def __init__(self, table):
+            seen['table'] = np.array(table, dtype=float)
+    S.ArraySpectrum = _Rec
+    try:
+        o = H.taurex_hdf5_to_observation(path)
+    finally:
+        S.ArraySpectrum = real
+        os.remove(path)
+    c.values['__file__'], c.values['__table__'] = f, seen.get('table')
+    return ('ArraySpectrum' if isinstance(o, _Rec) else repr(o)), p
+
+
+HOB = Unit(['C17', 'C16'], 'taurex.util.hdf5:taurex_hdf5_to_observation', _ho_params, post=_ho_post, bounds=[dict(N=2)],
+           pre=lambda c, v: {'wavenumbers_positive': (c.And(c.Len(v._file['instrument_wngrid']) >= 1,
+                                                            c.Forall(0, c.Len(v._file['instrument_wngrid']), lambda i: v._file['instrument_wngrid'][i] > 0))
+                                                      if c.mode != 'conc' else all(x > 0 for x in c.values['wn']))},
+           abstract={'call:File': _h_ts_file, 'H5Group.__getitem__': lambda ex, st, o, args, kwargs, node: _ho_get(ex, st, o, args, node),
+                     'H5Dataset.__getitem__': lambda ex, st, o, args, kwargs, node: st.get(st.env['_file']).items[o.ident], 'new:ArraySpectrum': _h_ho_new},
+           native=_ho_native, gen=lambda rng: (lambda N: dict(N=N, wn=sorted(rng.uniform(300, 9000) for _ in range(N)), sp=[rng.uniform(0.009, 0.011) for _ in range(N)],
+                                                            no=[rng.uniform(1e-5, 1e-4) for _ in range(N)], ww=[rng.uniform(1, 50) for _ in range(N)]))(rng.randint(1, 6)),
+           short='taurex_hdf5_to_observation',
+           doc='the observation rebuilt from a TauREx output file: an ArraySpectrum of the table whose row i is (10000 / wavenumber_i, spectrum_i, '
+               'noise_i, width_i converted at that wavenumber) of the instrument arrays (h5py abstract, ArraySpectrum: own units)')
+
+
+def _ho_get(ex, st, o, args, node):
+    key = args[0]
+    path = (o.ident + '/' + key).lstrip('/')
+    if path in ('Output', 'Output/Spectra'):
+        return _AbsObj('H5Group', path, {})
+    if o.ident == 'Output/Spectra' and key in st.get(st.env['_file']).items:
+        return _AbsObj('H5Dataset', key, {})
+    raise _RaiseExc(st, _ExcV('KeyError', getattr(node, 'lineno', 0)))
